@@ -57,7 +57,7 @@ func FlowProgram(r R, withDisruptive bool) (*sl.Program, []string) {
 			rule.SkipAfter = Pick(r, markers)
 		case x < 10 && phase != 5:
 			rule.Disruptive = "allow"
-		case x < 12 && phase != 5:
+		case x < 12:
 			rule.Disruptive = "allow:phase"
 		case x < 14 && phase != 5:
 			rule.Disruptive = "allow:request"
